@@ -436,6 +436,53 @@ def generate_engine_id_octets(pen: int, octets: bytes) -> bytes:
     return bytes(buffer)
 
 
+def reject_indefinite_length(data: bytes) -> None:
+    """
+    Raise an error if *data* (x690 encoded) uses the "indefinite length" form
+    anywhere.
+
+    SNMP only allows the definite forms (see :rfc:`3417#section-8`). The
+    indefinite form is also dangerous: for a value without end-of-contents
+    marker the x690 decoder never advances, so a single malformed (or
+    malicious) packet would keep the process busy forever while allocating
+    memory. This function walks over the TLV headers only, always moving
+    forward, and is therefore linear in the size of the packet.
+
+    Anything else that is wrong with the packet is left for the decoder to
+    report.
+
+    >>> reject_indefinite_length(b"\x30\x03\x02\x01\x05")
+    >>> reject_indefinite_length(b"\x30\x80\x02\x01\x05")
+    Traceback (most recent call last):
+      ...
+    puresnmp.exc.SnmpError: Indefinite length encoding at offset 0 ...
+    """
+    regions = [(0, len(data))]
+    while regions:
+        pos, end = regions.pop()
+        while pos + 1 < end:
+            length_octet = data[pos + 1]
+            if length_octet == 0x80:
+                raise SnmpError(
+                    "Indefinite length encoding at offset %d is not allowed "
+                    "in SNMP packets" % pos
+                )
+            if length_octet < 0x80:
+                start = pos + 2
+                stop = start + length_octet
+            else:
+                num_octets = length_octet & 0x7F
+                start = pos + 2 + num_octets
+                stop = start + int.from_bytes(data[pos + 2 : start], "big")
+            if stop > end:
+                # broken packet: the decoder will complain
+                break
+            if data[pos] & 0x20:
+                # constructed value: look at the nested values as well
+                regions.append((start, stop))
+            pos = stop
+
+
 def validate_response_id(request_id: int, response_id: int) -> None:
     """
     Compare request and response IDs and raise an appropriate error.
